@@ -824,3 +824,110 @@ func engRestartLate(variants []restartLateParams) vsched.Instance {
 	}
 	return vsched.Instance{Body: body, Check: check, Outcome: outcome}
 }
+
+// ------------------------------------------------------------------ C10: re-use of an id while its owner shuts down
+
+type respawnParams struct {
+	Children int // children of the actor that is being stopped (they stop before it does)
+	Stop     int // 1 Poison, 2 Stop
+	Probe    bool
+}
+
+func (p respawnParams) String() string { return fmt.Sprintf("ch%dstop%dprobe%v", p.Children, p.Stop, p.Probe) }
+
+// engRespawnRace: actor x/1 (with children) is stopped while another thread spawns x/1 again and
+// a third one polls GetPID. While any child of the old actor is still alive the old actor has not
+// stopped: its id is still taken (no second Producer run, GetPID non-nil).
+func engRespawnRace(variants []respawnParams) vsched.Instance {
+	var k *Kit
+	var p respawnParams
+	type obs struct {
+		what string
+		at   int // log length at the observation
+	}
+	var observations []obs
+	body := func() {
+		p = variants[chooseVariant(len(variants))]
+		k = NewQuietKit()
+		parent := func(k *Kit, c *actor.Context, inc int) {
+			if _, ok := c.Message().(actor.Started); ok && inc == 1 {
+				for i := 0; i < p.Children; i++ {
+					c.SpawnChild(k.Producer(fmt.Sprintf("C%d", i), func(k *Kit, c *actor.Context, inc int) {
+						if _, ok := c.Message().(actor.Stopped); ok {
+							vsched.Yield() // a child that takes a moment to stop
+						}
+					}), "c", actor.WithID(fmt.Sprint(i)))
+				}
+			}
+		}
+		pid := k.E.Spawn(k.Producer("X", parent), "x", actor.WithID("1"))
+		vsched.EndSetup()
+		vsched.Go("stopper", func() {
+			if p.Stop == 1 {
+				k.E.Poison(pid)
+			} else {
+				k.E.Stop(pid)
+			}
+		})
+		vsched.Go("respawner", func() {
+			// a different actor (its own process) that claims the same id: recorded under its own name
+			k.E.Spawn(k.Producer("X2", nil), "x", actor.WithID("1"))
+			if k.Incs("X2") > 0 {
+				vsched.Touch("log")
+				observations = append(observations, obs{"respawned", len(k.Log)})
+			}
+		})
+		if p.Probe {
+			vsched.Go("prober", func() {
+				for i := 0; i < 2; i++ {
+					if k.E.Registry.GetPID("x", "1") == nil {
+						vsched.Touch("log")
+						observations = append(observations, obs{"getpid-nil", len(k.Log)})
+					}
+				}
+			})
+		}
+		vsched.Quiesce()
+	}
+	check := func(r *vsched.Result) []vsched.Violation {
+		vs := stdEnd(r)
+		if len(vs) > 0 {
+			return vs
+		}
+		vs = append(vs, k.serial()...)
+		// log position at which the last child of the first incarnation handled Stopped
+		lastChildStopped := -1
+		stopped := 0
+		for i, e := range k.Log {
+			if e.Kind == "recv" && e.Msg == "Stopped" && strings.HasPrefix(e.Actor, "C") {
+				stopped++
+				lastChildStopped = i
+			}
+		}
+		for _, o := range observations {
+			if stopped < p.Children || o.at <= lastChildStopped {
+				sig := "respawn/id-reused-while-owner-still-has-live-children"
+				if o.what == "getpid-nil" {
+					sig = "respawn/getpid-nil-while-owner-still-has-live-children"
+				}
+				vs = append(vs, V(sig, "%s: %s at log position %d, children stopped %d of %d (last at %d); log: %s", p, o.what, o.at, stopped, p.Children, lastChildStopped, k.LogString()))
+			}
+		}
+		// the producer of the second spawn ran at most once, and only if the first actor is gone
+		if k.Incs("X") != 1 || k.Incs("X2") > 1 {
+			vs = append(vs, V("duplicate-id/producer-ran-for-more-than-one-spawn", "%s: producers ran %d and %d times", p, k.Incs("X"), k.Incs("X2")))
+		}
+		return vs
+	}
+	outcome := func() string {
+		if k == nil {
+			return ""
+		}
+		s := p.String() + ":"
+		for _, o := range observations {
+			s += fmt.Sprintf(" %s@%d", o.what, o.at)
+		}
+		return s + " " + k.LogString()
+	}
+	return vsched.Instance{Body: body, Check: check, Outcome: outcome}
+}
